@@ -82,10 +82,22 @@ impl BRC20ProgEngine {
             }
         }
 
+        // Validate before executing anything, a failed initialise must not leave a half built block behind
+        self.require_no_waiting_txes()?;
+        if genesis_height != self.get_next_block_height()? {
+            return Err("Genesis height is not the next block height".into());
+        }
+        let deploy_tx = load_brc20_deploy_tx();
+        let expected_contract_address = deploy_tx
+            .from
+            .create(self.get_account_nonce(deploy_tx.from)?);
+        verify_brc20_contract_address(&expected_contract_address.to_string())
+            .map_err(|_| "Invalid BRC20_Controller contract address")?;
+
         // Deploy BRC20 Controller contract
         let result = self.add_tx_to_block(
             genesis_timestamp,
-            &load_brc20_deploy_tx(),
+            &deploy_tx,
             0,
             genesis_height,
             genesis_hash,
